@@ -37,4 +37,16 @@ TABLE.update({
                 note=_ENUM_NOTE),
 })
 
+TABLE.update({
+    "C08": dict(engine="ENUM", design_ref="DESIGN.md 4/C08", technique="explicit-state search to closure over SimulationState values with the index operations as transitions, plus an FSX state monitor",
+                text="The finite abstract space (2 vehicles, 2 requests, 2 stations, 1 base, each on one of 3 cells or absent: 16 384 states) is explored to closure through the real add/modify/remove/pop operations; after every operation the eight index maps equal the entity-derived ones, forbidden operations are refused, and histories reaching the same entities give identical indexes. The same oracle runs on every state of the W-res and W-req explorations.",
+                note=_ENUM_NOTE),
+    "C12": dict(engine="ENUM", design_ref="DESIGN.md 4/C12", technique="bounded exhaustive input enumeration through the real Dispatcher against a brute-force matcher",
+                text="All 160 000 placements of <= 3 vehicles and <= 3 requests on 7 tie-rich cells, and 111 132 combinations of vehicle/request eligibility attributes with and without fleets: pairs are eligible, one-to-one, of size min(#V,#R) per fleet and of brute-force-minimal total grid distance. One open finding (fleet-less vehicles pass every fleet's filter) is recorded in known_findings.json.",
+                note=_ENUM_NOTE),
+    "C20": dict(engine="ENUM", design_ref="DESIGN.md 4/C20", technique="bounded exhaustive enumeration of shift tables, step lengths and start times through load_scenario/crank against an interval reference",
+                text="36 shift tables (normal, wrapping, empty, touching midnight) x 4 step lengths (incl. one that does not divide a day) x 3 start times, two simulated days each, loaded from real CSV files: availability after every step, on/off events exactly at flips, and no dispatcher assignment to an off-shift driver.",
+                note=_ENUM_NOTE),
+})
+
 NOT_APPLICABLE = {}
